@@ -186,14 +186,21 @@ def check_pair(res, da, db, a, b, mline, case):
         res.violate("C20:ne-inconsistent:%s" % kn, "__ne__ inconsistent with __eq__", case())
     if (inset != eq or indict != eq) and not (heq and not eq):  # a hash collision without equality cannot make them members
         res.violate("C20:set-membership:%s" % kn, "set/dict membership disagrees with equality", case())
+    # known-answer suppression on the add_answer / suppressed_by path: same record and more than half the TTL
+    sba = bool(a._suppressed_by_answer(b))
+    want_sba = spec and db[4] > da[4] / 2
+    if sba != want_sba:
+        res.violate("C20:suppressed-by-answer:%s" % kn, "a known answer that is %s record with TTL %s vs %s %s it"
+                    % ("the same" if spec else "a different", db[4], da[4], "suppresses" if sba else "does not suppress"), case())
     if mline is not None:
         m = mline.split()
         if m == ["bad-op"]:
             res.disagree("c20r", case(), "parsed", "bad-op")
             return
-        meq, mheq, mkeq, mseq = (x == "1" for x in m)
-        if meq != eq or (mheq and not heq) or (mkeq and mseq) != spec:
-            res.disagree("c20r", case(), {"eq": eq, "hash_eq": heq, "spec": spec}, {"eq": meq, "hash_eq": mheq, "kind_eq": mkeq, "spec_eq": mseq})
+        meq, mheq, mkeq, mseq, msba = (x == "1" for x in m)
+        if meq != eq or (mheq and not heq) or (mkeq and mseq) != spec or msba != sba:
+            res.disagree("c20r", case(), {"eq": eq, "hash_eq": heq, "spec": spec, "suppressed_by_answer": sba},
+                         {"eq": meq, "hash_eq": mheq, "kind_eq": mkeq, "spec_eq": mseq, "suppressed_by_answer": msba})
 
 
 def run(ctx):
